@@ -10,6 +10,7 @@
 #include <csignal>
 #include <fstream>
 #include <iostream>
+#include <ctime>
 
 using namespace vf;
 
@@ -98,13 +99,20 @@ int main(int argc, char **argv) {
         printf(r.o == DISCARD ? "DISCARD\n" : "PASS\n"); return 0;
     }
     if (!g_journal.empty()) g_journal_fd = open(g_journal.c_str(), O_CREAT | O_RDWR | O_TRUNC, 0644);
-    std::vector<uint8_t> last_fail; std::string last_oracle, last_msg;
+    std::vector<uint8_t> last_fail; std::string last_oracle, last_msg; time_t first_fail_time = 0; const long shrink_budget = 90;
     bool ok = rc::check(std::string("property ") + prop, [&]() {
         auto bytes = *rc::gen::container<std::vector<uint8_t>>(rc::gen::arbitrary<uint8_t>());
+        // shrinking is time-boxed (cases of some properties spawn processes): after the budget every further shrink candidate is declined
+        if (g_stats.frozen && time(nullptr) - first_fail_time > shrink_budget) return;
         journal(bytes);
         RunResult r = run_case(bytes, budget);
         account(r);
-        if (r.o == FAIL) { g_stats.frozen = true; g_stats.failures++; last_fail = bytes; last_oracle = r.oracle; last_msg = r.msg; RC_FAIL(r.oracle + ": " + r.msg); }
+        if (r.o == FAIL) {
+            if (!g_stats.frozen) first_fail_time = time(nullptr);
+            g_stats.frozen = true; g_stats.failures++; last_fail = bytes; last_oracle = r.oracle; last_msg = r.msg;
+            // the failing case is saved at once (and again for every smaller one), so that a shard stopped while shrinking still reports it
+            if (!g_failout.empty()) { std::ofstream f(g_failout + ".tmp", std::ios::binary); f.write((const char *)bytes.data(), (std::streamsize)bytes.size()); f.close(); rename((g_failout + ".tmp").c_str(), g_failout.c_str()); }
+            RC_FAIL(r.oracle + ": " + r.msg); }
     });
     dump_stats();
     if (!ok) {
